@@ -220,7 +220,8 @@ func runC18(c *Ctx) {
 		})
 	}
 	if slack < 0 {
-		broken("ANCHOR-UNRESOLVED the writer's trim test len(buffer) > size + <const> was not found")
+		c.Bad(rBuf, "trim-test", "", "the writer has no trim test of the form len(buffer) > size + <constant>: the in-memory log is not bounded by the configured length plus a constant slack")
+		slack = 0
 	}
 	for _, w := range writers {
 		c.Touch(w)
